@@ -29,7 +29,28 @@ PLUGIN_CHECKS = ["fcp_dbc.generator:Generator.register_checks.check_impl_valid_t
                  "fcp_dbc.generator:Generator.register_checks.check_duplicate_can_ids",
                  "fcp_can_c.generator:Generator.register_checks.check_impl_valid_type"]
 
+ENCODING = ["fcp.encoding:PackedEncoder._get_type_length", "fcp.encoding:PackedEncoder._generate_signal",
+            "fcp.encoding:PackedEncoder._generate_struct", "fcp.encoding:PackedEncoder._generate_array_type",
+            "fcp.encoding:PackedEncoder._generate_compound_type", "fcp.encoding:PackedEncoder._generate",
+            "fcp.encoding:PackedEncoder.generate", "fcp.specs.impl:Impl.get_signal", "fcp.specs.v2:FcpV2.get_type",
+            "fcp.specs.v2:FcpV2.get_struct", "fcp.specs.v2:FcpV2.get_enum", "fcp.specs.enum:Enum.get_packed_size",
+            "fcp.specs.type:NumericType.get_length"]
+
 PLANS = {
+    "C04": {
+        "targets": ENCODING,
+        "native": "layout",
+        "trusted": [
+            "builtin sorted(xs, key=field_id) is one fixed function of xs (same term in code and spec); copy.copy is a shallow copy",
+            "typing invariant of the schema classes (pyserde strict type checks): list fields hold objects of the declared class",
+            "assumed contract Enum.max (builtin max/map); termination of the recursion over nested structs (declared-earlier order, C08)",
+            "uniqueness of the hierarchical names is NOT proved (known finding KF-F9: an unrolled array x next to a field x_0)",
+        ],
+        "explanation": "representation invariant tiled(encoding, cursor, names): first piece at bit 0, each piece starts where the previous ends, "
+                       "cursor at the end; every member of PackedEncoder preserves it; a leaf gets exactly type_width bits (= wire width), the "
+                       "options of the signal block named like the field and of no other; names follow struct_names(...) over "
+                       "sorted-by-field-id fields; generate() resets the state so its result is a function of (schema, binding, context)",
+    },
     "C10": {
         "targets": ["fcp.codegen:_handle_file", "fcp.codegen:_handle_print", "fcp.codegen:handle_result", "fcp.codegen:CodeGenerator.gen",
                     "fcp.codegen:GeneratorManager.generate"],
